@@ -32,7 +32,10 @@ EXPLANATION = (
     "the same pair by the NF equality); (c) SHAPE-COLS - symbolic shapes (k,p) for univariate and (k,1) for multivariate kernels and "
     "no (k,)-against-(k,p) broadcast; (d) ROW-INDEP - evaluate stores to no attribute, mutates no argument or fitted array, and "
     "contains no reduction/sort along the cut axis; (e) PARAM-DISPATCH - mode chosen by `param is None`, every parameter component "
-    "passes check_mean/check_var/check_cov which raise ValueError on wrong length / non-positive variance / non-PD covariance. "
+    "passes check_mean/check_var/check_cov which raise ValueError on wrong length / non-positive variance / non-PD covariance; "
+    "(f) JIT-NEUTRAL - every @njit/@jit decoration in the library carries no semantics-changing option (fastmath, parallel, "
+    "error_model, boundscheck) and the soft import's fastmath/parallel defaults are False, so the compiled kernels have the Python "
+    "semantics that (a)-(e) interpret (fastmath would let the compiler drop the np.isnan non-PD guard). "
     "NOT decided: rounding error of prefix sums, numerics of np.cov/slogdet/inv, that np.cumsum is a cumulative sum (library model)."
 )
 ASSUMPTIONS = [
@@ -40,7 +43,7 @@ ASSUMPTIONS = [
     "library model table skverif/models.py (np.cumsum, np.log, np.cov, np.linalg.slogdet/inv, broadcasting, indexing)",
     "specification /verif/spec/costs.py transcribes the definitions named in the property",
     "sktime BaseEstimator model: clone == type(self)(**get_params()), check_is_fitted reads _is_fitted, check_series returns its argument",
-    "numba is absent: @njit is the identity, prange is range",
+    "numba compiles a kernel decorated without semantics-changing options to the semantics of its Python source (@njit read as the identity, prange as range); the absence of such options is rule (f), not an assumption",
 ]
 
 # frozen table: cost class -> components of the fixed parameter and their checker
@@ -54,7 +57,10 @@ REDUCERS = {"sum", "cumsum", "argsort", "mean", "maxall", "minall", "diff", "qua
 
 
 def check(ctx):
+    from .common import check_jit_neutral
+
     check_prefix_builder(ctx)
+    ctx.guard("C01.f JIT-NEUTRAL", "decorators", lambda: check_jit_neutral(ctx, "C01.f JIT-NEUTRAL"))
     costs = ctx.P.registry("skchange.costs", "COSTS")
     n_kernels = 0
     n_sinks = set()
